@@ -1280,6 +1280,16 @@ func (w *world) search(o *vh.Out, r *vh.Rng, q query) {
 		kind += "+filter"
 	}
 	o.Emit(kind, line, impl, len(ranked) > 0)
+	// ---- the formula line: the driver evaluates the scoring expression generated from text.go on the model's
+	// index state and compares it with the real _score / _hybridScore of every returned document
+	if len(ranked) > 0 {
+		wf := "-"
+		if q.weight != nil {
+			wf = bits(*q.weight)
+		}
+		o.Emit("scorecheck", fmt.Sprintf("scorecheck w=%s q=%s sc=%s", wf, hexTerms(analyse(q.text)), strings.Join(resStr, ",")), fmt.Sprintf("ok n=%d", len(ranked)), true)
+		o.Stats[fmt.Sprintf("scorecheck-terms-%d", len(qterms))]++
+	}
 	// ---- the property, judged on the real answer
 	fail := func(sig, what string) { o.Fail(sig, what+" | query "+strconv.Quote(q.text), replay(line)) }
 	if len(res) != len(ranked) {
@@ -1588,6 +1598,8 @@ func doReplay(path string) {
 			}
 			sort.Slice(ids, func(i, j int) bool { return ids[i] < ids[j] })
 			fmt.Println("set=" + strings.ReplaceAll(idsStr(ids), "-", "") + " res=" + strings.Join(rs, ","))
+		case "scorecheck":
+			fmt.Println("(formula line: carries the recorded scores; judged by the model, `semadriver C05`)")
 		case "dupprobe":
 			o := vh.NewOut(os.TempDir() + "/c05-dupprobe")
 			fmt.Printf("dupprobe: %d of 20 runs violate the property\n", dupProbe(o, os.TempDir(), 20))
